@@ -215,7 +215,7 @@ func ParseMessage(reader *bufio.Reader) (*Message, error) {
 				return nil, errors.New("not a valid sip request")
 			}
 			name := line[0:pos]
-			value := strings.TrimSpace(line[pos+1:])
+			value := strings.Trim(line[pos+1:], " \t")
 			msg.AddHeader(name, value)
 		}
 	}
